@@ -94,7 +94,15 @@ def run(ctx):
                     q["script"] = [{"kind": kind, "nth_from": 0, "nth_to": r - 1, "answer": "%s:%s" % (e1.err(t), variant)}]
                     q["meta"] = dict(base["meta"], run=[kind, t, r], media=variant)
                     reqs.append(q)
-    # account update and key roll-over positions (two-phase flows: issue, change the configuration, renew)
+    # a CA that is slow in real time: four badNonce answers to one request, each taking 3 s of wall time; the request is still
+    # recoverable and within the bound, so it is re-sent with fresh nonces until it succeeds
+    import copy
+    for kind in (["newOrder"] if ctx.quick else ["newOrder", "finalize", "newAccount"]):
+        q = copy.deepcopy(base)
+        q["phases"][0]["wall_budget_ms"] = 90000
+        q["script"] = [{"kind": kind, "nth_from": 0, "nth_to": 3, "answer": e1.err("badNonce") + ":slow3"}]
+        q["meta"] = dict(base["meta"], run=[kind, "badNonce", 4], slow=3)
+        reqs.append(q)
     from . import c04
     for kind, flow, kt2 in [("acctUpdate", "contacts", None), ("keyChange", "rollover", "ecdsa-p384")]:
         for t in (types if not ctx.quick else ["badNonce", "serverInternal", "malformed", "unauthorized", "notype", "rateLimited"]):
